@@ -30,6 +30,48 @@ def style_reads(func, var="style"):
     return out
 
 
+def check_style_ownership(repo, rep):
+    """Each cell owns its Style object: the getter stores an object allocated for this very cell."""
+    g = repo.func("cell.py", "Cell.style")
+    stores = [n for n in body_walk(g) if isinstance(n, ast.Assign) and U(n.targets[0]) == "self._style"]
+    if not stores:
+        raise AnalysisError("Cell.style: assignment of self._style not found")
+
+    def fresh(expr, depth=0):
+        """True when ``expr`` can only evaluate to an object allocated by this evaluation."""
+        if isinstance(expr, ast.Call):
+            t = U(expr.func)
+            if t in ("Style.from_storage", "Style", "cls"):
+                return True, ""
+            if isinstance(expr.func, ast.Attribute) and depth < 3:
+                # a helper: every value it returns must itself be fresh
+                cands = []
+                for rel in ("model.py", "cell.py"):
+                    for q, fn in repo.functions(rel).items() if hasattr(repo, "functions") else []:
+                        if q.split(".")[-1] == expr.func.attr:
+                            cands.append((rel, fn))
+                if not cands:
+                    for rel in ("model.py", "cell.py"):
+                        for fn in [x for x in ast.walk(repo.tree(rel)) if isinstance(x, ast.FunctionDef) and x.name == expr.func.attr]:
+                            cands.append((rel, fn))
+                if len(cands) == 1:
+                    fn = cands[0][1]
+                    for r in [x for x in body_walk(fn) if isinstance(x, ast.Return) and x.value is not None]:
+                        ok_, why = fresh(r.value, depth + 1)
+                        if not ok_:
+                            return False, f"{fn.name} returns `{U(r.value)}`" + (f" ({why})" if why else "")
+                    return True, ""
+            return False, f"`{U(expr)[:60]}` is not an allocation"
+        if isinstance(expr, ast.Name):
+            return False, f"`{expr.id}` may be shared"
+        return False, f"`{U(expr)[:60]}` is a stored object"
+
+    for st in stores:
+        ok, why = fresh(st.value)
+        rep.ob("C15.R2", st, "Cell.style: the cached Style is allocated for this cell alone", ok,
+               "" if ok else f"{why}: two cells can hold the same Style object, so changing one cell's style changes the other's", key="C15.R2@style:ownership")
+
+
 def run(repo, rep, tier):
     # ---- R1 stamp before apply
     scb = repo.func("document.py", "Table.set_cell_border")
@@ -99,6 +141,7 @@ def run(repo, rep, tier):
     style_cls = repo.cls("cell.py", "Style")
     fields = [n.target.id for n in style_cls.body if isinstance(n, ast.AnnAssign) and isinstance(n.target, ast.Name)]
     public = [f for f in fields if not f.startswith("_")]
+    rep.sub(check_style_ownership, repo, rep)
     rep.ob("C15.R2", style_cls, f"Style has {len(public)} public attributes", len(public) >= 15, "", key="C15.R2@fields")
     fs = repo.func("cell.py", "Style.from_storage")
     kws = {}
@@ -457,6 +500,7 @@ def sym_after(value, sym, cur_S, cur_L, cur_mode=None):
 
 
 VARIANTS = [
+    M("style-shared-by-id", "cell.py", "            self._style = Style.from_storage(self, self._model)\n", "            self._style = self._model._style_cache.setdefault((self._text_style_id, self._cell_style_id), Style.from_storage(self, self._model))\n", "C15.R2"),
     M("revert-fix-apply-then-stamp", "document.py", "        self._model.add_stroke(self._table_id, row, col, side, border_value, length)\n\n        if side in [\"top\", \"bottom\"]:",
       "        if side in [\"top\", \"bottom\"]:", "C15.R1",
       more=(("document.py", "                self._model.set_cell_border(self._table_id, border_row_num, col, side, border_value)\n\n    def set_cell_formatting",
